@@ -258,10 +258,14 @@ def ufunc_class_factory(name, nargin, nargout, docstring):
             else:
                 return getattr(x[0].ufuncs, name)(*x[1:])
         else:
+            # The result is written to `out`. For ufuncs with several outputs
+            # the call returns a tuple of the parts of `out`, which must not
+            # be returned from an in-place evaluation.
             if nargin == 1:
-                return getattr(x.ufuncs, name)(out=out)
+                getattr(x.ufuncs, name)(out=out)
             else:
-                return getattr(x[0].ufuncs, name)(*x[1:], out=out)
+                getattr(x[0].ufuncs, name)(*x[1:], out=out)
+            return out
 
     def __repr__(self):
         """Return ``repr(self)``."""
